@@ -14,6 +14,7 @@ called exactly once on a handler iterable that produced output.
 """
 import io
 import itertools
+import os
 
 from vf import core, sut, wsgi
 
@@ -164,6 +165,8 @@ def shards(tier, seed):
     out.append(('outcomes', None, None, tier))
     for first in range(len(SEQ_MENU)):
         out.insert(0, ('sequence', first, None, tier))
+    out.append(('static', None, None, tier))
+    out.append(('statustext', None, None, tier))
     # seed extension: one more value shape
     out.append(('extra', seed % 4, None, tier))
     return out
@@ -642,6 +645,115 @@ def work_sequence(res, om, depth, first):
     core.add_sample(res, {'sequence_menu': [list(m[:2]) for m in SEQ_MENU], 'depth': depth})
 
 
+STATIC_RANGES = [None, 'bytes=0-3', 'bytes=5-', 'bytes=-3', 'bytes=-0', 'bytes=99999-', 'bytes=5-2', 'bytes=0-0', 'bytes=2-99999', 'bytes=-99999',
+                 'bytes=1-2,4-5', 'garbage', 'bytes=', 'lines=1-2']
+STATIC_IMS = [None, 'Thu, 01 Jan 1970 00:00:00 GMT', 'Fri, 01 Jan 2100 00:00:00 GMT', 'junk']
+STATIC_FILES = [('empty.txt', 0), ('ten.txt', 10), ('big.bin', 3000), ('packed.gz', 40), ('missing.txt', None), ('../outside.txt', None)]
+
+
+def static_case(om, root, name, method, rng, ims, download, fw):
+    app = om.default_app()          # (static_file looks at the request of the default application)
+    if not hasattr(app, 'c03_cell'):
+        app.c03_cell = cell = {}
+
+        def serve_file():
+            return om.static_file(cell['name'], root=cell['root'], download=cell['download'])
+        app.route('/c03f', ['GET', 'POST'], serve_file)
+    app.c03_cell.update(name=name, root=root, download=download)
+    hdrs = {}
+    if rng is not None:
+        hdrs['HTTP_RANGE'] = rng
+    if ims is not None:
+        hdrs['HTTP_IF_MODIFIED_SINCE'] = ims
+    env = wsgi.environ(method, '/c03f', **hdrs)
+    if fw:
+        env['wsgi.file_wrapper'] = wsgi.FileWrapper
+    c = wsgi.call(app, env)
+    return wsgi.pep3333_problems(c, method), c
+
+
+def work_static(res, om):
+    """the framework's own file responder (static_file) behind a route: every Range / If-Modified-Since form x file size x
+    method x download mode x file_wrapper presence must give one well-formed response whose Content-Length is the body"""
+    import tempfile
+    import shutil
+    c = res['counters']
+    root = tempfile.mkdtemp(prefix='c03static.')
+    try:
+        for name, size in STATIC_FILES:
+            if size is not None:
+                with open(os.path.join(root, name), 'wb') as f:
+                    f.write(bytes(range(256)) * 12 if size == 3000 else b'0123456789' * (size // 10))
+                    f.truncate(size)
+        for (name, size), method, rng, ims, download, fw in itertools.product(STATIC_FILES, ('GET', 'HEAD'), STATIC_RANGES, STATIC_IMS,
+                                                                                (False, True, 'other.name'), (False, True)):
+            case = {'static': [name, method, rng, ims, download, fw]}
+            core.track(res, case)
+            probs, cl = static_case(om, root, name, method, rng, ims, download, fw)
+            res['states'] += 1
+            res['transitions'] += 1
+            c['static_calls'] += 1
+            c['calls'] += 1
+            if method == 'HEAD':
+                c['head'] += 1
+            if cl.code in NOBODY:
+                c['nobody_status'] += 1
+            res['nontrivial'] += 1
+            res['outcomes'].add(f'static_file -> {cl.code}')
+            if probs:
+                core.add_violation(res, case, f'static_file({name!r}) of {size} bytes, {method}, Range={rng!r}, If-Modified-Since={ims!r}, download={download!r}, '
+                                   f'file_wrapper={fw}: status {cl.status}: ' + '; '.join(probs[:2]), sig='static:' + str(cl.code) + ':' + probs[0][:25])
+    finally:
+        shutil.rmtree(root, ignore_errors=True)
+    core.add_sample(res, {'static_file': {'files': STATIC_FILES, 'ranges': STATIC_RANGES, 'if_modified_since': STATIC_IMS}})
+
+
+STATUS_TEXTS = ['200 OK', '404 Not Found ', ' 203 Custom', '299 My Own Reason', '404 Not Found\r\n', '\t201 Created\t', '204 No Content ', '304 Not Modified\n',
+                '500 Oops  ', '  418 I am a teapot  ', '999 Last']
+STATUS_WAYS = ['assign', 'return-response', 'raise-response', 'raise-error', 'return-error']
+
+
+def statustext_case(om, text, way, method):
+    app = om.Ombott()
+
+    def h():
+        if way == 'assign':
+            app.response.status = text
+            return 'x'
+        if way == 'return-response':
+            return om.HTTPResponse('x', status=text)
+        if way == 'raise-response':
+            raise om.HTTPResponse('x', status=text)
+        if way == 'raise-error':
+            raise om.HTTPError(text, 'x')
+        return om.HTTPError(text, 'x')
+    app.route('/s', ['GET', 'POST'], h)
+    c = wsgi.call(app, wsgi.environ(method, '/s'))
+    probs = wsgi.pep3333_problems(c, method)
+    if not probs and c.status != text.strip():
+        probs = [f'status line {c.status!r}, the handler set {text!r}']
+    return probs, c
+
+
+def work_statustext(res, om):
+    """a status given as text ('404 Not Found', possibly cut out of an upstream status line with blanks or a line end around it)
+    through every way of setting it: the status line handed to the server is the trimmed text"""
+    c = res['counters']
+    for text, way, method in itertools.product(STATUS_TEXTS, STATUS_WAYS, ('GET', 'HEAD', 'POST')):
+        case = {'statustext': [text, way, method]}
+        core.track(res, case)
+        probs, cl = statustext_case(om, text, way, method)
+        res['states'] += 1
+        res['transitions'] += 1
+        c['calls'] += 1
+        c['status_text_calls'] += 1
+        res['nontrivial'] += 1
+        res['outcomes'].add(f'status text -> {cl.code}')
+        if probs:
+            core.add_violation(res, case, f'status {text!r} set by {way}, {method}: ' + '; '.join(probs[:2]), sig='statustext:' + probs[0][:20])
+    core.add_sample(res, {'status_texts': STATUS_TEXTS, 'ways': STATUS_WAYS})
+
+
 def work(spec):
     kind, i, n, tier = spec
     res = core.new_result()
@@ -683,6 +795,10 @@ def work(spec):
                 for method in ('GET', 'HEAD', 'POST'):
                     run_case(res, om, REPR_PROGS[0], method, cfg, outcome)
         core.add_sample(res, {'outcomes': ['404', '405'], 'configs': len(CONFIGS)})
+    elif kind == 'static':
+        work_static(res, om)
+    elif kind == 'statustext':
+        work_statustext(res, om)
     elif kind == 'sequence':
         work_sequence(res, om, 2 if tier == 'quick' else 3, i)
         om = sut.load(fresh=True)
@@ -707,6 +823,30 @@ def post(run):
 
 def replay(case):
     om = sut.load()
+    if 'statustext' in case:
+        text, way, method = case['statustext']
+        probs, cl = statustext_case(om, text, way, method)
+        if not probs:
+            return None
+        return f'handler sets the status {text!r} ({way}), {method}: ' + '; '.join(probs[:2])
+    if 'static' in case:
+        import tempfile
+        import shutil
+        name, method, rng, ims, download, fw = case['static']
+        root = tempfile.mkdtemp(prefix='c03static.')
+        try:
+            for nm, size in STATIC_FILES:
+                if size is not None:
+                    with open(os.path.join(root, nm), 'wb') as f:
+                        f.write(bytes(range(256)) * 12 if size == 3000 else b'0123456789' * (size // 10))
+                        f.truncate(size)
+            probs, cl = static_case(om, root, name, method, rng, ims, download, fw)
+        finally:
+            shutil.rmtree(root, ignore_errors=True)
+        if not probs:
+            return None
+        return (f'handler returns static_file({name!r}, root, download={download!r}); {method} with Range={rng!r}, If-Modified-Since={ims!r}, '
+                f'wsgi.file_wrapper {"present" if fw else "absent"}: status {cl.status}: ' + '; '.join(probs[:2]))
     if 'seq' in case:
         bad = seq_judge(om, case['seq'])
         return None if bad is None else f'requests {[SEQ_MENU[i][:2] for i in case["seq"]]} served one after the other by one application: {bad}'
